@@ -76,8 +76,16 @@ def run(tier="quick"):
         for x in walk(tf.body):
             if x.get("k") == "assign" and x.get("op") == "=":
                 l = X.strip(x["ch"][0])
-                if l is not None and l.get("k") == "member" and l.get("n") == "tokens" and any(y.get("k") == "call" for y in walk(x["ch"][1])):
-                    stores.append(x)
+                if l is not None and l.get("k") == "member" and l.get("n") == "tokens":
+                    r_ = X.strip(x["ch"][1])
+                    fresh_ = any(y.get("k") == "call" for y in walk(x["ch"][1]))
+                    if not fresh_ and r_ is not None and r_.get("k") == "ref" and r_.get("rk") == "local":
+                        # the new list goes through a local first (fresh = LIST_NEW(..); self->tokens = fresh;)
+                        defs_ = [y["ch"][1] for y in walk(tf.body) if y.get("k") == "assign" and y.get("op") == "=" and (X.strip(y["ch"][0]) or {}).get("d") == r_["d"]]
+                        defs_ += [dc["init"] for y in walk(tf.body) if y.get("k") == "decl" for dc in y.get("decls", ()) if dc["d"] == r_["d"] and dc.get("init") is not None]
+                        fresh_ = bool(defs_) and all(any(z.get("k") == "call" for z in walk(e_)) for e_ in defs_)
+                    if fresh_:
+                        stores.append(x)
         for c_ in X.calls_in(tf.body):          # the reset moved into a unit-local helper
             g_ = tf.unit.functions.get(X.callee_name(c_) or "")
             if g_ is not None and g_.body is not None and any(
